@@ -317,6 +317,15 @@ def _store_cases(lf):
         if isinstance(n, ast.Assign) and isinstance(n.value, ast.Call) and isinstance(n.value.func, ast.Subscript) \
                 and 'halo_field_loaders' in unparse(n.value.func.value) and len(n.targets) == 1 and isinstance(n.targets[0], ast.Name):
             call = n
+        # the loader may also be the value of `for pat, loader in self.halo_field_loaders.items()`
+        if isinstance(n, ast.Assign) and isinstance(n.value, ast.Call) and isinstance(n.value.func, ast.Name) and len(n.targets) == 1 \
+                and isinstance(n.targets[0], ast.Name) and len(n.value.args) == 3:
+            p_ = getattr(n, '_parent', None)
+            while p_ is not None and not isinstance(p_, ast.For):
+                p_ = getattr(p_, '_parent', None)
+            if isinstance(p_, ast.For) and 'halo_field_loaders.items()' in unparse(p_.iter) and isinstance(p_.target, ast.Tuple) \
+                    and len(p_.target.elts) == 2 and unparse(p_.target.elts[1]) == n.value.func.id:
+                call = n
     if call is None:
         return False, 'loader call not found'
     blk = getattr(call, '_parent', None)
